@@ -947,6 +947,7 @@ def guarded_subscripts(fi: FuncInfo, rule: str = 'R18.2', arrays: Optional[Set[s
     def guard_ok(node, arr) -> bool:
         ln = arr_len.get(arr)
         cur = node
+        facts: Set[str] = set()
         while cur in par:
             p = par[cur]
             test = None
@@ -970,10 +971,35 @@ def guarded_subscripts(fi: FuncInfo, rule: str = 'R18.2', arrays: Optional[Set[s
                         return True
                     if c == C.mk_not(gt) and pos == 'orelse':
                         return True
+                    # `N != 1` together with `N > 0` (two nested tests) is `N > 1`
+                    L_ = C.atom(('n', nm))
+                    if (c == C.mk_cmp('eq', L_, C.ONE) and pos == 'orelse') or (c == C.mk_cmp('ne', L_, C.ONE) and pos == 'body'):
+                        facts.add('ne1')
+                    if (c == C.mk_cmp('gt', L_, C.ZERO) and pos == 'body') or (c == C.mk_cmp('eq', L_, C.ZERO) and pos == 'orelse') \
+                            or (c == C.mk_cmp('ne', L_, C.ZERO) and pos == 'body'):
+                        facts.add('pos')
+                    if facts >= {'ne1', 'pos'}:
+                        return True
                 if ln is None:
                     glen = C.mk_cmp('gt', C.atom(('call', 'len', (C.atom(('n', arr)),))), C.ONE)
                     if c == glen and pos == 'body':
                         return True
+            # an earlier statement of an enclosing block leaves the function when the train has a single spike:
+            # `if N == 1: ... return` (also `N < 2`, `N <= 1`)
+            for fld in ('body', 'orelse'):
+                blk = getattr(p, fld, None)
+                if isinstance(blk, list) and any(cur is s_ for s_ in blk):
+                    k_ = [i_ for i_, s_ in enumerate(blk) if s_ is cur][0]
+                    for s_ in blk[:k_]:
+                        if isinstance(s_, ast.If) and s_.body and isinstance(s_.body[-1], (ast.Return, ast.Raise)):
+                            try:
+                                c_ = C.canon_cond(s_.test, Env())
+                            except C.CanonError:
+                                continue
+                            L_ = C.atom(('n', ln)) if ln else C.atom(('call', 'len', (C.atom(('n', arr)),)))
+                            if c_ in (C.mk_cmp('eq', L_, C.ONE), C.mk_cmp('lt', L_, C.const(2)), C.mk_cmp('le', L_, C.ONE),
+                                      C.mk_not(C.mk_cmp('gt', L_, C.ONE))):
+                                return True
             cur = p
         return False
     for n in ast.walk(fi.node):
